@@ -32,6 +32,7 @@ CONSTANTS Buf,        \* line-buffer-size
                       \*  "D21" the header written for a mode change also says that the file is binary
                       \*  "D23" (color-only) a header line written directly to the writer first empties the output buffer
                       \*  "D24" "Binary files ... differ" after the pair's header has been written is shown as it stands
+                      \*  "D25" a "-Subproject commit" line without its "+" twin (removed submodule) is shown, not dropped
                       \*  "D20" "+++ /dev/null" keeps the language chosen from the old name (deleted file)
                       \* Fixes = {} is the tree as pinned; the regression configs drop one fix and
                       \* must produce a counterexample (the design-level check is not vacuous).
@@ -49,6 +50,7 @@ InitS == [st |-> "Unknown", mf |-> NoFile, pf |-> NoFile, mev |-> "none", pev |-
           m3 |-> NotNeeded,                     \* AmbiguousDiffMinusCounter (NotNeeded, or old-side lines still due)
           comb |-> FALSE,                       \* DiffType::Combined
           mcp |-> "", mo |-> <<>>, ma |-> <<>>, mt |-> <<>>,   \* merge conflict phase and buffered lines
+          subk |-> 0,                           \* State::SubmoduleShort(Some(old commit)): index of the "-Subproject commit" line held back
           syn |-> 0,                            \* Painter.syntax: id of the file whose name chose the language (0 = the default language)
           hl |-> 0,                             \* Painter.highlighter: the language it was created for (set_highlighter)
           sy |-> <<>>]                          \* <<k, language>> for each hunk line painted, in painting order
@@ -171,7 +173,7 @@ HHunkLine(s, k, line) ==
             CASE line.c \in {"minus", "minus3"} ->
                    LET a == IF s1.st = "HunkPlus" THEN Flush(s1) ELSE s1
                    IN CountLine([a EXCEPT !.mb = Append(@, k), !.st = "HunkMinus"])
-              [] line.c \in {"plus", "plus3"} -> [s1 EXCEPT !.pb = Append(@, k), !.st = "HunkPlus"]
+              [] line.c \in {"plus", "plus3", "subp"} -> [s1 EXCEPT !.pb = Append(@, k), !.st = "HunkPlus"]
               [] line.c = "zero" ->
                    LET a == Flush(s1) IN CountLine([a EXCEPT !.ob = Append(@, Row("zero", k, <<>>)), !.st = "HunkZero",
                                                                !.sy = Append(@, <<k, a.hl>>)])
@@ -231,8 +233,14 @@ HOnlyIn(s, k, line) ==
   IN Direct(a, Row("fileHdr", k, <<line.f, line.f, "onlyin", 0, FALSE>>))
 \* handle_submodule_short_line
 HSubShort(s, k, line) ==
-  IF line.c = "subm" THEN [s EXCEPT !.st = "SubmoduleShort", !.hh = 0]
-  ELSE Direct(Emit(s), Row("subshort", k, <<>>))
+  IF line.c = "subm" THEN [s EXCEPT !.st = "SubmoduleShort", !.hh = 0, !.subk = k]
+  ELSE [Direct(Emit(s), Row("subshort", k, <<>>)) EXCEPT !.subk = 0]
+\* handle_pending_submodule_short_commit ("D25"): a "-Subproject commit" line that no "+Subproject commit" follows (a removed
+\* submodule) is shown on its own - before the next line is handled, or at the end of the input
+PendSub(s, alone) ==
+  IF "D25" \in Fixes /\ s.st = "SubmoduleShort" /\ s.subk # 0 /\ alone
+  THEN [Direct(Emit(s), Row("subgone", s.subk, <<>>)) EXCEPT !.st = "HunkZero", !.subk = 0]
+  ELSE s
 
 \* The handler chain.  Guards are those of the test_* functions for git input.
 \* detect_source (first line that says where the input comes from) and the start of old-side counting
@@ -261,10 +269,10 @@ StepD(s, k, line) ==
     [] s.st \in HunkStates -> HHunkLine(s, k, line)
     [] OTHER -> FallThrough(s, k)
 
-Step(s, k, line) == StepD(Detect(s, line), k, line)
+Step(s, k, line) == StepD(Detect(PendSub(s, line.c # "subp"), line), k, line)
 
 \* end of input: handle_pending_line_with_diff_name; paint_buffered...; emit
-Finish(s) == Emit(Flush(Pending(s)))
+Finish(s) == LET p == PendSub(s, TRUE) IN Emit(Flush(Pending(p)))
 
 \* everything but the bytes already written.  (The painter's language and highlighter survive a "diff"
 \* line; they are replaced by the section's own ---/+++ and @@ lines before any line is highlighted:
